@@ -26,6 +26,27 @@ Proof. exact parse_written. Qed.
 Theorem C19_integer_text_parses : forall bound ng m, bound < 10 ^ 39 -> int_ok bound ng m = true -> parse_signed bound (show_int ng m) = Some (ng, m).
 Proof. exact parse_signed_show. Qed.
 
+(* typed integer arrays of every width (i8 .. u128), any length, every value of the width incl. both extremes: written, split and read back *)
+Theorem C19_int_array_round_trip : forall w xs, forallb (width_ok w) xs = true -> exists t, round_trip (JAI w xs) = Some (t, RtOk (JAI w xs)).
+Proof. exact int_array_round_trip. Qed.
+Theorem C19_int_array_domain_inhabited :
+  (forallb (width_ok I8) [(true, 128); (false, 127); (false, 0)] = true) /\ (forallb (width_ok U128) [(false, 2 ^ 128 - 1); (false, 0)] = true) /\
+  (forallb (width_ok I128) [(true, 2 ^ 127); (false, 2 ^ 127 - 1)] = true) /\ (forallb (width_ok U64) [(false, 2 ^ 64 - 1)] = true).
+Proof. vm_compute. repeat split. Qed.
+
+(* arrays of booleans and nulls of any length, and of strings of printable ASCII without quote and backslash (brackets, commas included) *)
+Theorem C19_bool_array_round_trip : forall xs, exists t, round_trip (JAB xs) = Some (t, RtOk (JAB xs)).
+Proof. exact bool_array_round_trip. Qed.
+Theorem C19_null_array_round_trip : forall n, exists t, round_trip (JAN n) = Some (t, RtOk (JAN n)).
+Proof. exact null_array_round_trip. Qed.
+Theorem C19_string_array_round_trip : forall xs, forallb str_ok xs = true -> exists t, round_trip (JAS xs) = Some (t, RtOk (JAS xs)).
+Proof. exact string_array_round_trip. Qed.
+
+(* arrays of floats: every list of Display texts (sign, digits, at most one point) that f64::from_str accepts; zero is normalised to 0.0 *)
+Theorem C19_float_array_round_trip : forall xs, forallb (fun x => disp_ok (snd x)) xs = true ->
+  exists t, round_trip (JAF xs) = Some (t, RtOk (JAF (map (fun x => (arr_float (snd x), arr_float (snd x))) xs))).
+Proof. exact float_array_round_trip. Qed.
+
 (* nested objects, arrays of every element kind and brackets inside strings: one representative tree, by evaluation *)
 Theorem C19_nested_example : exists t, round_trip nested_example = Some (t, RtOk nested_expected).
 Proof. exact nested_example_round_trips. Qed.
